@@ -10,6 +10,7 @@ import (
 	"fmt"
 	"math/rand"
 	"os"
+	"sort"
 	"time"
 
 	"github.com/mutagen-io/mutagen/pkg/synchronization/core"
@@ -20,9 +21,125 @@ import (
 
 // Case is the replay form of one case.
 type Case struct {
-	A *coretree.J `json:"a"`
-	B *coretree.J `json:"b"`
-	P string      `json:"p"` // path given to diff(path, a, b)
+	A  *coretree.J `json:"a"`
+	B  *coretree.J `json:"b"`
+	P  string      `json:"p"`            // path given to diff(path, a, b)
+	Ms []Mut       `json:"ms,omitempty"` // heap part: mutations of the cells of a
+}
+
+// Mut is one mutation of a cell of the original, addressed by the number
+// Model/Heap.v (alloc_tree) gives the cell: children in name order first, then
+// the cell itself.
+type Mut struct {
+	Op      string `json:"op"` // setleaf del reify scribble
+	Loc     int    `json:"loc"`
+	Name    string `json:"name,omitempty"`
+	Tracked bool   `json:"tracked,omitempty"`
+}
+
+// numberCells lists the cells of e in the allocation order of the heap model.
+func numberCells(e *core.Entry, out []*core.Entry) []*core.Entry {
+	if e == nil {
+		return out
+	}
+	names := make([]string, 0, len(e.Contents))
+	for n := range e.Contents {
+		names = append(names, n)
+	}
+	sort.Strings(names)
+	for _, n := range names {
+		out = numberCells(e.Contents[n], out)
+	}
+	return append(out, e)
+}
+
+// applyMut performs one mutation on the Go cells, with the semantics of
+// Model/Heap.v step: the mutators of the code base act on directory kinds only.
+func applyMut(cells []*core.Entry, m Mut) {
+	if m.Loc < 0 || m.Loc >= len(cells) {
+		return
+	}
+	x := cells[m.Loc]
+	switch m.Op {
+	case "setleaf":
+		if isDirLike(x) {
+			if x.Contents == nil {
+				x.Contents = map[string]*core.Entry{}
+			}
+			x.Contents[m.Name] = coretree.File("m", true)
+		}
+	case "del":
+		if isDirLike(x) {
+			delete(x.Contents, m.Name)
+		}
+	case "reify":
+		if x.Kind == core.EntryKind_PhantomDirectory {
+			if m.Tracked {
+				x.Kind = core.EntryKind_Directory
+			} else {
+				x.Kind = core.EntryKind_Untracked
+				x.Contents = nil
+			}
+		}
+	case "scribble":
+		x.Kind = core.EntryKind_Problematic
+		x.Executable = false
+		x.Digest = nil
+		x.Target = ""
+		x.Problem = "mutated"
+		x.Contents = nil
+	}
+}
+
+func mutCoq(m Mut) string {
+	switch m.Op {
+	case "setleaf":
+		return fmt.Sprintf("(MSetLeaf %d %s (CFile true \"m\"))", m.Loc, coretree.Str(m.Name))
+	case "del":
+		return fmt.Sprintf("(MDel %d %s)", m.Loc, coretree.Str(m.Name))
+	case "reify":
+		return fmt.Sprintf("(MReify %d %v)", m.Loc, m.Tracked)
+	default:
+		return fmt.Sprintf("(MScribble %d (CProblem \"mutated\"))", m.Loc)
+	}
+}
+
+// randomMuts draws a mutation sequence over the cells of a.
+func randomMuts(r *rand.Rand, a *core.Entry) []Mut {
+	cells := numberCells(a, nil)
+	if len(cells) == 0 {
+		return nil
+	}
+	k := 1 + r.Intn(5)
+	ms := make([]Mut, 0, k)
+	for i := 0; i < k; i++ {
+		loc := r.Intn(len(cells))
+		if r.Intn(3) == 0 { // favour directory cells
+			for j := 0; j < 4 && !isDirLike(cells[loc]); j++ {
+				loc = r.Intn(len(cells))
+			}
+		}
+		name := "zz"
+		if names := cells[loc].Contents; len(names) > 0 && r.Intn(3) != 0 {
+			sorted := make([]string, 0, len(names))
+			for n := range names {
+				sorted = append(sorted, n)
+			}
+			sort.Strings(sorted)
+			name = sorted[r.Intn(len(sorted))]
+		}
+		switch r.Intn(7) {
+		case 0, 1:
+			ms = append(ms, Mut{Op: "setleaf", Loc: loc, Name: name})
+		case 2, 3:
+			ms = append(ms, Mut{Op: "del", Loc: loc, Name: name})
+		case 4:
+			ms = append(ms, Mut{Op: "reify", Loc: loc, Tracked: r.Intn(2) == 0})
+		default:
+			ms = append(ms, Mut{Op: "scribble", Loc: loc})
+		}
+	}
+	return ms
 }
 
 var behaviors = []core.EntryCopyBehavior{
@@ -154,6 +271,24 @@ func runCase(c Case) (string, bool, []string) {
 		copies = append(copies, "("+before+", "+after+")")
 	}
 
+	// Heap part: the same mutation sequence after each copy behaviour; what
+	// each copy shows afterwards.
+	mutStrs := make([]string, len(c.Ms))
+	for i, m := range c.Ms {
+		mutStrs[i] = mutCoq(m)
+	}
+	seen := make([]string, 0, len(behaviors))
+	for _, beh := range behaviors {
+		orig := coretree.FromJ(c.A)
+		cells := numberCells(orig, nil)
+		cp := orig.Copy(beh)
+		for _, m := range c.Ms {
+			applyMut(cells, m)
+		}
+		seen = append(seen, coretree.Entry(cp))
+	}
+	heapPart := "(" + hx.List(mutStrs) + ", " + hx.List(seen) + ")"
+
 	out := fmt.Sprintf("(Out7 %s %s %s %s %s %d %s %s %s %s)", dStr, appliedStr, coretree.Changes(ds),
 		coretree.Changes(pd), coretree.Entry(s), n, hx.List(copies), applied2Str,
 		coretree.Entry(a), coretree.Entry(b))
@@ -185,7 +320,16 @@ func runCase(c Case) (string, bool, []string) {
 	if c.P != "" {
 		tags = append(tags, "in:prefixed-diff")
 	}
-	return "(" + in + ", " + out + ")", len(d) > 0, tags
+	if len(c.Ms) > 0 {
+		visible := 0
+		for i := range seen {
+			if seen[i] != coretree.Entry(coretree.FromJ(c.A).Copy(behaviors[i])) {
+				visible++
+			}
+		}
+		tags = append(tags, fmt.Sprintf("heap:mutations-visible-through-%d-of-4-copies", visible))
+	}
+	return "(" + in + ", " + out + ", " + heapPart + ")", len(d) > 0, tags
 }
 
 // phantomize returns a copy of e in which some directories became phantom
@@ -207,12 +351,12 @@ func phantomize(r *rand.Rand, e *core.Entry, p int) *core.Entry {
 	return c
 }
 
-const header = "From Coq Require Import List String.\nImport ListNotations.\nOpen Scope string_scope.\nFrom Mv Require Import Common.Bytes Model.Entry Model.DiffApply Harness.DiffApplyH."
+const header = "From Coq Require Import List String.\nImport ListNotations.\nOpen Scope string_scope.\nFrom Mv Require Import Common.Bytes Model.Entry Model.DiffApply Model.Heap Harness.DiffApplyH."
 
 func main() {
 	cfg := hx.Parse()
 	w := hx.NewWriter(cfg, header, "dcase", "da_failures", 200)
-	w.Rule = "a case = (a, b, path) with the outputs of core.Diff(a,b), core.Apply(a, that diff), core.Diff(a,a), diff(path,a,b), a.synchronizable(), a.Count(), a.Copy(behaviour) before and after mutating the original for each of the four behaviours, core.Apply(nil, [root:=a]++diff), and a, b re-read at the end; distinct = distinct Coq terms; non-trivial = core.Diff(a,b) is not empty"
+	w.Rule = "a case = (a, b, path) with the outputs of core.Diff(a,b), core.Apply(a, that diff), core.Diff(a,a), diff(path,a,b), a.synchronizable(), a.Count(), a.Copy(behaviour) before and after mutating the original for each of the four behaviours, core.Apply(nil, [root:=a]++diff), and a, b re-read at the end; plus a random sequence of 1-5 mutations (contents insert/delete, phantom reification, overwrite) of the original's cells applied after each copy behaviour and the four copies read afterwards, which the heap model must predict exactly; distinct = distinct Coq terms; non-trivial = core.Diff(a,b) is not empty"
 	add := func(c Case, origin string) {
 		if w.Aborted {
 			return
@@ -250,7 +394,7 @@ func main() {
 	prefixes := []string{"", "", "", "x", "x/y"}
 	pick := func() string { return prefixes[r.Intn(len(prefixes))] }
 	mk := func(a, b *core.Entry) Case {
-		return Case{A: coretree.ToJ(a), B: coretree.ToJ(b), P: pick()}
+		return Case{A: coretree.ToJ(a), B: coretree.ToJ(b), P: pick(), Ms: randomMuts(r, a)}
 	}
 	if cfg.Thorough() {
 		w.Extra["exhaustive_scope"] = fmt.Sprintf("all %d x %d ordered pairs of the small scope of trees (names {a,b}/{c}, depth <= 2, every entry kind incl. untracked and problematic; nil roots)", len(sides), len(sides))
